@@ -22,7 +22,7 @@ def state_lines(rng, version, n_ops, nodes=(1, 3)):
 class DiskWorld:
     """A World used only for its kernel (timers) and SimFS switching."""
 
-    def __init__(self, version, fmt, flavour="serial", bufsize=8192, sched=None, max_steps=400_000, relpath=None):
+    def __init__(self, version, fmt, flavour="serial", bufsize=8192, sched=None, max_steps=400_000, relpath=None, window=None):
         self.version = version
         self.fmt = fmt
         # the file as configured (possibly relative to the working directory, as in the README) ...
@@ -32,7 +32,7 @@ class DiskWorld:
         self.abspath = self.fs.norm(self.path)
         self.fs.mkdir(simfs.posixpath.dirname(self.abspath))
         self.world = W.World(flavour, {"protocol_version": version, "persistence": True, "persistence_file": self.path},
-                             fs=self.fs, sched=sched, max_steps=max_steps)
+                             fs=self.fs, sched=sched, max_steps=max_steps, window=window)
         self.flavour = flavour
 
     def use(self, fs):
